@@ -207,6 +207,23 @@ def step (s : St) (toks : List String) : St × String :=
            (s, toString (Sif.Spec.C18.epochSharesOK pre ch))
          | _, _ => (s, "bad-op")
        | _, _ => (s, "bad-op"))
+  | "chk" :: "c18.l1lppd" :: _tag :: nch :: rest =>
+      (match parseNat nch with
+       | some nch =>
+         match parseChanges (rest.take (4 * nch)) [], parseDump (rest.drop (4 * nch)) with
+         | some ch, some pre =>
+           -- the policy in force is the driver's (the hook does not change it); the height is the dump's
+           let distributing : Bool := match s.params.rewardPeriod with
+             | some rp => periodActive pre.height rp.start rp.stop && rp.distribute && rp.allocation != 0
+             | none => false
+           if distributing then (s, "true") else
+           let rate : Dec := match s.params.lppd with
+             | some p => if periodActive pre.height p.start p.stop && (match isDistributionBlock pre.height p.start p.mod with | .ok b => b | .error _ => false)
+                         then p.rate else ⟨0⟩
+             | none => ⟨0⟩
+           (s, toString (Sif.Spec.C18.lppdSharesOK rate pre ch))
+         | _, _ => (s, "bad-op")
+       | none => (s, "bad-op"))
   | "chk" :: "c18.recipients" :: _tag :: hook :: lock :: nch :: rest =>
       (match parseNat lock, parseNat nch with
        | some lock, some nch =>
